@@ -41,6 +41,32 @@ def rule_document_text(ctx: Ctx, rule: str = "R-C19-1"):
                             and norm(s.value.args[0]) in ("self.plain_text", "self.markup_text") for s in pts)
     ctx.ob(rule, "models.Document.__post_init__/plain-text", okp,
            "the cleaned text is clean_text(<plain or markup input>, self.clean_steps): the same function the plain-text call computes", node=pi, mod=mm)
+    # the steps are typed Iterable and may be a one-shot iterator: outside the markup branch nothing consumes `self.clean_steps` (membership test,
+    # loop, materialising call) except the clean_text call itself or a list()/tuple() copy that everything else then uses
+    eaters = []
+    for x in walk_local(pi):
+        if not (isinstance(x, ast.Attribute) and norm(x) == "self.clean_steps" and isinstance(x.ctx, ast.Load)):
+            continue
+        par = x.parent
+        while isinstance(par, (ast.BoolOp, ast.IfExp)) and not (isinstance(par, ast.IfExp) and par.test is x):
+            x, par = par, par.parent
+        consuming = (isinstance(par, ast.Compare) and any(isinstance(o, (ast.In, ast.NotIn)) for o in par.ops) and par.left is not x) \
+            or (isinstance(par, (ast.For, ast.comprehension)) and par.iter is x) \
+            or (isinstance(par, ast.Call) and x in par.args and dotted(par.func) not in ("clean_text", "list", "tuple", "bool", "isinstance"))
+        if not consuming:
+            continue
+        g = par
+        in_markup = False
+        while g is not None and g is not pi:
+            if isinstance(g, ast.If) and "markup_text" in norm(g.test):
+                in_markup = True
+            g = getattr(g, "parent", None)
+        if not in_markup:
+            eaters.append(par)
+    ctx.ob(rule, "models.Document.__post_init__/steps-consumed-by-the-cleaner", not eaters,
+           "in plain mode the (possibly one-shot) iterable of steps reaches clean_text unconsumed: an earlier membership test or loop over it leaves "
+           f"the cleaner with no steps, and every offset then indexes the uncleaned input ({[norm(e)[:50] for e in eaters][:3]})",
+           node=eaters[0] if eaters else pi, mod=mm)
     return pi, step_names
 
 
